@@ -501,6 +501,7 @@ func (e *Engine) chooseP(st *State, guardsIn []*smt.Term, payload []uint64, what
 	// fork others
 	for k := len(feas) - 1; k >= 1; k-- {
 		child := st.fork()
+		child.Steps-- // the child executes the current instruction again
 		child.replay = append(append([]dec(nil), st.decided...), dec{feas[k], pl(feas[k])})
 		child.decided = nil
 		e.assertPC(child, guards[feas[k]])
